@@ -48,6 +48,7 @@ struct WorldStd : IWorld
         if (sparse) As = to_sparse(Ad);
     }
     void probe(std::vector<unsigned char>& out) override { probe_inner(box.inner.get(), out); }
+    void apply_inner(int, int method, const VecL& x, VecL& y) override { apply_inner_impl<S>(box.inner.get(), method, x, y); }
 };
 
 template <class S>
